@@ -46,6 +46,9 @@ RX_RELEASE = re.compile(r"^(hawk_(rtx_|gem_|sed_)?freemem|HAWK_MMGR_FREE|hawk_xm
                         r"hawk_rtx_freevaloocstr|hawk_rtx_freeval[bu]cstr|hawk_rtx_clrrec|purge_\w+)$")
 RX_BORROW = re.compile(r"(search|find|lookup|_get\w*|get_\w+|getxtn|getgem|getfirst|getnext|peek|_gettop|cmgr|hawk_rtx_getarg|"
                        r"hawk_rtx_getgbl|hawk_rtx_getnrflt|strchr|strstr|token|GET_|getmmgr|_geterr\w*|hawk_map_getfirstpair|hawk_map_getnextpair|backuperrmsg|hawk_rtx_format(mbs)?$|tre_mem_c?alloc|tre_ast_new_)", re.I)
+# callees that take over the object passed to them whether they succeed or fail (they hold a reference across the operation
+# and drop it): for the caller the object is released at the call
+RX_CONSUME = re.compile(r"^(set_ref_to_new_val)$")
 RX_REALLOC = re.compile(r"^hawk_(rtx_|gem_)?reallocmem$|^HAWK_MMGR_REALLOC$|^hawk_xma_realloc$")
 FAIL_RET = re.compile(r"^(\(\w+(\s*\*)?\))?(-1|HAWK_NULL|NULL|\(-1\)|HAWK_MAP_NIL|HAWK_ARR_NIL|REG_ESPACE|-\s*1)$")
 
@@ -271,6 +274,9 @@ class TrW(U.Tr):
         k = s[0]
         if k == "caselabel":
             return True
+        if k == "label":
+            # a label inside a branch: an entry point for gotos from elsewhere (a goto to it is refused: unknown label)
+            return True
         if k == "switch":
             return self.inert_tokens(s[1]) and self.inert_stmt(s[2])
         if k == "simple" and s[1] and s[1][0] in ("break", "continue"):
@@ -281,7 +287,29 @@ class TrW(U.Tr):
         c = U.as_call(t)
         return c is not None and RX_RELEASE.match(U.canon_callee(c[0])) is not None
 
+    def release_loop(self, s):
+        """`while (i > 0) release(x[--i]);` / `for (...) release(x[i]);` -> "x[*]" (the elements of x acquired so far)"""
+        if s[0] != "loop":
+            return None
+        body = s[3][1] if s[3][0] == "block" else [s[3]]
+        body = [b for b in body if not (b[0] == "simple" and not b[1])]
+        if len(body) != 1 or body[0][0] != "simple":
+            return None
+        c = U.as_call(body[0][1])
+        if not c or not RX_RELEASE.match(U.canon_callee(c[0])):
+            return None
+        for a in reversed(c[1]):
+            m = re.match(r"^(?:\(\w+\*?\))?([A-Za-z_][\w\.\->]*)\[[^\]]*\]$", U.join(a))
+            if m and not any(is_acq_name(U.canon_callee(x)) or RX_RELEASE.match(U.canon_callee(x)) for x in U.calls_in(s[2])):
+                self.trusted.add("RELEASE-LOOP:" + U.canon_callee(c[0]))
+                return m.group(1) + "[*]"
+        return None
+
     def release_of(self, s):
+        rl = self.release_loop(s)
+        if rl is not None:
+            self.rid(rl, create=True)
+            return [("always", rl)]
         if s[0] == "simple":
             c = U.as_call(s[1])
             if c and RX_RELEASE.match(U.canon_callee(c[0])):
@@ -336,6 +364,8 @@ class TrW(U.Tr):
             return all(self.looks_like_cleanup(x) for x in s[1])
         if s[0] == "if":
             return self.inert_tokens(s[1]) and self.looks_like_cleanup(s[2]) and (s[3] is None or self.looks_like_cleanup(s[3]))
+        if s[0] == "loop" and self.release_loop(s) is not None:
+            return True
         return self.inert_stmt(s)
 
     def is_early_success(self, th):
@@ -373,6 +403,9 @@ class TrW(U.Tr):
                 # a shared exit (only releases / inert statements up to the return): the main path falls into it and ends.
                 # any other label is a join point in the middle of the body: the main path just goes on
                 if self.cleanup_at(stmts, i):
+                    if pending and not pending[3]:
+                        self.ops.append(("guard", self.label_ref(s[1]))); self.callees.append(("opaque", pending[1][1]))
+                        pending = None
                     self.fallthrough = s[1]
                     main_done = True
                     label_sections.append(s)
@@ -494,6 +527,14 @@ class TrW(U.Tr):
                     continue
                 self.err("unclassified statement", t)
             if k == "loop":
+                rl = self.release_loop(s)
+                if rl is not None:
+                    r0 = self.rid(rl, create=True)
+                    if any(o[0] in ("acq", "acqp") and o[1] == r0 for o in self.ops):
+                        self.ops.append(("rel", r0)); self.callees.append(("none", "")); self.temps.append(rl)
+                    else:
+                        self.assumed = getattr(self, "assumed", []) + ["main-path release loop over %s, which this path did not fill: not tracked" % rl]
+                    continue
                 if self.inert_stmt(s):
                     continue
                 if not self.inert_tokens(s[2]):
@@ -539,7 +580,9 @@ class TrW(U.Tr):
                         continue
                     if neg or negint:
                         if el is not None and not self.inert_stmt(el):
-                            self.err("else branch after a failure test is not inert", cond)
+                            # `if (failed) { exit } else { B }` is `if (failed) { exit }  B`
+                            stmts = stmts[:i] + (el[1] if el[0] == "block" else [el]) + stmts[i:]
+                            n = len(stmts)
                         lbl = self.failure_target(th, getattr(self, "nullable", None))
                         fnname = pending[1][1]
                         if pending[3] and (negint or RX_BORROW.search(fnname)):
@@ -550,13 +593,24 @@ class TrW(U.Tr):
                             if pending[3]:
                                 self.trusted.add("ACQ?:" + fnname)
                             rname = self.call_resource(pending[2][0], pending[2][1]) if negint else lhs
-                            self.add_acq(rname, lbl, pending[1])
+                            mi = re.match(r"^([A-Za-z_][\w\.\->]*)\[[^\]]*\]$", rname)
+                            if mi and any(x[0] == "endloop" for x in stmts[i:]):
+                                # x[i] = acquire(..) in a loop body: the elements filled so far are one resource, partially
+                                # held when this step fails
+                                r0 = self.rid(mi.group(1) + "[*]", create=True)
+                                if any(o[0] in ("acq", "acqp") and o[1] == r0 for o in self.ops):
+                                    self.err("resource %s acquired twice" % self.res[r0])
+                                self.ops.append(("acqp", r0, lbl)); self.callees.append(pending[1])
+                            else:
+                                self.add_acq(rname, lbl, pending[1])
                         pending = None
                         continue
                     if pos and not pending[3]:
                         if el is not None and not self.inert_stmt(el):
-                            self.err("else branch of a positive test is not inert", cond)
-                        lbl = self.anon_label([])
+                            # `if (x) { A } else { exit }` is `if (!x) { exit }  A`
+                            lbl = self.failure_target(el, getattr(self, "nullable", None))
+                        else:
+                            lbl = self.anon_label([])
                         self.add_acq(lhs, lbl, pending[1]); pending = None
                         self.nullable = lhs
                         body = th[1] if th[0] == "block" else [th]
@@ -608,9 +662,16 @@ class TrW(U.Tr):
                 exits = bool(thb) and thb[-1][0] == "simple" and bool(thb[-1][1]) and thb[-1][1][0] in ("goto", "return")
                 if ok and calls and exits:
                     if el is not None and not self.inert_stmt(el):
-                        self.err("else branch after a failure test is not inert", cond)
+                        stmts = stmts[:i] + (el[1] if el[0] == "block" else [el]) + stmts[i:]
+                        n = len(stmts)
                     lbl = self.failure_target(th, getattr(self, "nullable", None))
                     for (c, ck, x) in calls:
+                        if ck[0] == "opaque" and RX_CONSUME.match(ck[1]):
+                            self.trusted.add("CONSUME:" + ck[1])
+                            for a_ in c[1]:
+                                r0 = self.rid(U.lvalue(a_))
+                                if r0 is not None and any(o[0] == "acq" and o[1] == r0 for o in self.ops) and not any(o[0] == "rel" and o[1] == r0 for o in self.ops):
+                                    self.ops.append(("rel", r0)); self.callees.append(("none", "")); self.temps.append(self.res[r0])
                         if ck[0] == "opaque":
                             self.ops.append(("guard", lbl)); self.callees.append(ck); self.trusted.add("GUARD:" + ck[1])
                         elif x[0] == "!" or x[-1] in ("HAWK_NULL", "NULL"):
@@ -680,6 +741,8 @@ class TrW(U.Tr):
         self.finish_labels(label_sections)
         has_rel = any(o[0] == "rel" for o in self.ops)
         lang1_only = any(o[0] in ("check", "soft") or (o[0] == "acq" and o[2] is None) for o in self.ops) or any(k_ == "ifset" for rels in self.final_labels for k_, _ in rels)
+        if any(o[0] == "acqp" for o in self.ops) and lang1_only:
+            self.err("element-wise filled object together with deferred or conditional cleanup: neither table language expresses both")
         if has_rel and lang1_only:
             self.err("main-path release together with deferred or conditional (`if (x) free(x)`) cleanup: neither table language expresses both")
         self.lang = 1 if lang1_only else 2
@@ -734,10 +797,11 @@ class TrW(U.Tr):
         for rels in final:
             self.final_labels.append([(kind, self.rid(rn, create=True)) for kind, rn in rels])
         # a local that this path sets to null and never assigns again: releasing it is a no-op
-        held_names = {o[1] for o in self.ops if o[0] == "acq"}
+        held_names = {o[1] for o in self.ops if o[0] in ("acq", "acqp")}
         nulled = getattr(self, "nulled", set())
         for li, rels in enumerate(self.final_labels):
-            keep = [(k_, r) for (k_, r) in rels if r in held_names or self.res[r] not in nulled or self.res[r] in self.received]
+            # (likewise a release loop over the elements of an object that this path never filled runs zero times)
+            keep = [(k_, r) for (k_, r) in rels if r in held_names or not (self.res[r] in nulled or self.res[r].endswith("[*]")) or self.res[r] in self.received]
             if len(keep) != len(rels):
                 self.assumed = getattr(self, "assumed", []) + ["release of a local that is null on this path: no-op"]
                 self.final_labels[li] = keep
@@ -794,6 +858,13 @@ def wf_table(ops, labels, res):
             b = label_bad(o[1], "failure of step %d (fallible step)" % j)
             if b:
                 return b
+        elif o[0] == "acqp":
+            if o[1] in sure or o[1] in maybe or o[1] in freed:
+                return "step %d: %s acquired twice" % (j, res[o[1]])
+            sure.append(o[1])
+            b = label_bad(o[2], "failure of step %d (filling %s: the elements filled so far are held)" % (j, res[o[1]]))
+            if b:
+                return b
         elif o[0] == "rel":
             if o[1] not in sure:
                 return "step %d: releases %s on the main path, which is not held there" % (j, res[o[1]])
@@ -804,7 +875,7 @@ def wf_table(ops, labels, res):
 
 
 # ---- driver ------------------------------------------------------------------------------------------------------------------
-MAXPATHS = 24
+MAXPATHS = 64
 
 
 def all_paths(name, fname, params, st):
@@ -861,7 +932,7 @@ def scan(repo):
             except (AssertionError, IndexError, TypeError, ValueError) as e:
                 unh.append((name, fname, "translator exception %s" % type(e).__name__))
                 continue
-            good = [v for v in variants if len([o for o in v.ops if o[0] in ("acq", "guard", "check")]) >= 1]
+            good = [v for v in variants if len([o for o in v.ops if o[0] in ("acq", "acqp", "guard", "check")]) >= 1]
             if not good:
                 unh.append((name, fname, "no table: no fallible step recognised on any path"))
                 continue
@@ -878,7 +949,7 @@ def scan(repo):
                 seen = []
                 for v in variants:
                     key = (tuple(map(tuple, [tuple(o) if o[0] != "check" else (o[0], tuple(o[1]), o[2]) for o in v.ops])), tuple(tuple(r) for r in v.final_labels))
-                    if key not in [k for k, _ in seen] and len([o for o in v.ops if o[0] in ("acq", "guard", "check")]) >= 1:
+                    if key not in [k for k, _ in seen] and len([o for o in v.ops if o[0] in ("acq", "acqp", "guard", "check")]) >= 1:
                         seen.append((key, v))
                 est.append(("wide", name, fname, [v for _, v in seen], len(variants)))
             else:
@@ -897,7 +968,7 @@ def lean_table2(tr, idn):
     L.append("  file := %s" % U.lean_str(tr.fname))
     ops = []
     for o in tr.ops:
-        ops.append(".acq %d %d" % (o[1], o[2]) if o[0] == "acq" else ".guard %d" % o[1] if o[0] == "guard" else ".rel %d" % o[1])
+        ops.append(".acq %d %d" % (o[1], o[2]) if o[0] == "acq" else ".acqp %d %d" % (o[1], o[2]) if o[0] == "acqp" else ".guard %d" % o[1] if o[0] == "guard" else ".rel %d" % o[1])
     labs = ["[" + ", ".join("%d" % r for _, r in rels) + "]" for rels in tr.final_labels]
     L.append("  table := { ops := [%s],\n             labels := [%s] }" % (", ".join(ops), ", ".join(labs)))
     L.append("  callees := [%s]" % ", ".join(U.lean_str("prim" if c[0] == "prim" else "" if c[0] == "none" else c[1]) for c in tr.callees))
